@@ -339,6 +339,22 @@ theorem public_names_kept :
     Verif.Gen.RenameSites.newRenamerArgs = ["!o.KeepVarNames && !ast.Scope.HasWith", "!o.useAlphabetVarNames"] := by
   refine ⟨?_, ?_, ?_, ?_⟩ <;> decide
 
+/-- **every scope is complete when it is renamed.**  `optimizeStmtList` may move lexical declarations into the scope whose
+    statement list it optimises (`Scope.Unscope` of a merged else block); the traversal model (`renameForest`) assumes that the
+    `declared` list of a scope is final when the scope is handed to `renameScope` — a declaration arriving later would keep
+    its original name, unchecked against the names already handed out.  Regenerated fact: at each of the 14 call sites the
+    statement list of that scope is optimised *before* the `renameScope` call of the same function / case clause (the plain
+    block statement has no optimisation of its own: its list was optimised with the enclosing list). -/
+theorem optimize_before_rename :
+    Verif.Gen.RenameSites.siteOrder =
+      ["none", "before", "before", "before", "before", "before", "before", "before", "before", "before", "before",
+        "before", "before", "before"] ∧
+    Verif.Gen.RenameSites.siteOrder.length = Verif.Gen.RenameSites.sites.length ∧
+    (Verif.Gen.RenameSites.siteOrder.all fun o => o != "after") = true ∧
+    ((Verif.Gen.RenameSites.sites.zip Verif.Gen.RenameSites.siteOrder).all fun p =>
+      p.2 == "before" || (p.1.2.1 == "*js.BlockStmt" && p.1.2.2 == "stmt.Scope")) = true := by
+  refine ⟨?_, ?_, ?_, ?_⟩ <;> decide
+
 /-! ## KeepVarNames and `with` -/
 
 /-- every write of `renamer.rename` is either the restore of the saved value or
